@@ -916,6 +916,69 @@ def check_string_nodes(im, code: str, ast: T.Any) -> T.List[Viol]:
     return out
 
 
+# ---------------------------------------------------------------- f-strings / .format(): one pass, no rescanning
+
+def scalar_text(v: T.Any) -> str:
+    """how the reference prints a scalar: true/false, decimal digits, the string itself"""
+    if isinstance(v, bool):
+        return 'true' if v else 'false'
+    return str(v)
+
+
+def oracle_substitution(im, rng, n: int) -> T.List[Viol]:
+    """f'...@name@...' and '...@N@...'.format(...) replace every placeholder exactly once, left to right, with the
+    text of the value; text that was inserted is never scanned again (values that look like placeholders stay as they
+    are); a placeholder without a variable / argument is an error; everything else is copied verbatim"""
+    import re
+    out: T.List[Viol] = []
+    names = ['x', 'y', '_z', 'x1', 'n_', 'X']
+    tricky = ['@x@', '@y@', '@0@', '@1@', '@', '@@', 'x', '', 'a b', '1', 'true', '@x', 'x@']
+    for _ in range(n):
+        defined = rng.sample(names, rng.randint(1, 4))
+        vals: T.Dict[str, T.Any] = {}
+        for nm in defined:
+            r = rng.random()
+            vals[nm] = rng.choice(tricky) if r < 0.5 else (rng.random() < 0.5) if r < 0.7 else rng.randint(-3, 12)
+        pieces = []
+        for _k in range(rng.randint(1, 5)):
+            r = rng.random()
+            if r < 0.5:
+                pieces.append('@' + rng.choice(defined if rng.random() < 0.93 else names) + '@')
+            elif r < 0.6:
+                pieces.append('@' + str(rng.randint(0, 2)) + '@')
+            else:
+                pieces.append(rng.choice(['@', '@@', 'x', ' ', ':', '@ x@', '@x y@', '@1x@', '-', 'x@', '@y', '_']))
+        tpl = ''.join(pieces)
+        defs = ''.join(f'{nm} = {src_of(v)}\n' for nm, v in vals.items())
+        code = defs + f"r = f'{tpl}'\n"
+        want = ref_substitute(tpl, {nm: scalar_text(v) for nm, v in vals.items()})
+        ok, vs, ans = ev(im, code)
+        if want is None:
+            if ok:
+                out.append((f'fstring-undefined:{code!r}', 'an f-string naming an undefined variable evaluates', {'program': code, 'answer': ans}))
+        elif not ok or vs.get('r') != want:
+            out.append((f'fstring:{code!r}', f'the f-string evaluates to {vs.get("r") if vs else ans!r}, the reference prescribes {want!r} '
+                        '(each @name@ replaced once, inserted text not rescanned)', {'program': code, 'answer': ans, 'expected': want}))
+        # the same template shape with positional placeholders
+        args = [rng.choice(tricky) if rng.random() < 0.5 else (rng.random() < 0.5) if rng.random() < 0.4 else rng.randint(-3, 12)
+                for _k in range(rng.randint(0, 3))]
+        ftpl = ''.join(rng.choice(['@0@', '@1@', '@2@', '@0@', '@', 'x', '@@', '@ 0@', '@00@', '@x@', ':', '@1', '0@'])
+                       for _k in range(rng.randint(1, 5)))
+        code = f"r = {src_of(ftpl)}.format({', '.join(src_of(a) for a in args)})\n"
+        texts = [scalar_text(a) for a in args]
+        nums = [int(m) for m in re.findall(r'@([0-9]+)@', ftpl)]
+        ok, vs, ans = ev(im, code)
+        if any(k >= len(texts) for k in nums):
+            if ok:
+                out.append((f'format-out-of-range:{code!r}', 'a placeholder number without an argument does not fail', {'program': code, 'answer': ans}))
+        else:
+            want = re.sub(r'@([0-9]+)@', lambda m: texts[int(m.group(1))], ftpl)
+            if not ok or vs.get('r') != want:
+                out.append((f'format:{code!r}', f'.format() gives {vs.get("r") if vs else ans!r}, the reference prescribes {want!r}',
+                            {'program': code, 'answer': ans, 'expected': want}))
+    return out
+
+
 # ---------------------------------------------------------------- documented methods: reference values
 
 def judge_calls(im, code: str) -> T.List[Viol]:
